@@ -14,6 +14,7 @@ PROPS = {
             "miniscript::types::Type::{and_b,and_v,or_b,or_c,or_d,or_i,and_or,threshold}",
             "miniscript::types::{Correctness,Malleability}::* (called by the above)",
             "Type::{TRUE,FALSE,pk_k,pk_h,multi,sortedmulti,multi_a,sortedmulti_a,hash,time}",
+            "Type::type_check dispatch of every leaf Terminal variant to its rule (c05_dispatch_leaves)",
         ],
         "bounds": {
             "quick": "every rule on ALL 960^n child-type tuples (no bound); thresh: n <= 4 children, all k in 1..=n",
